@@ -166,7 +166,7 @@ def random_cfg(rng, max_depth=9):
     kind = rng.choice(["u", "u", "s", "arr"])
     ew = n = 0
     if kind == "u":
-        w = rng.choice([1, 2, 3, 4, 6, 8])
+        w = rng.choice([0, 1, 2, 2, 3, 4, 4, 6, 8])
     elif kind == "s":
         w = rng.choice([1, 2, 3, 4, 5, 8])
     else:
@@ -182,7 +182,7 @@ def random_cfg(rng, max_depth=9):
         elif kind == "arr":
             gran = rng.choice([None] + [g for g in range(1, n + 1) if n % g == 0])
         else:
-            gran = rng.choice([None, None] + [g for g in range(1, w + 1) if w % g == 0])
+            gran = rng.choice([None, None] + [g for g in range(1, max(w, 1) + 1) if w % g == 0])
         wp.append((rng.choice(DOMS), gran))
     rp = []
     for _ in range(nr):
